@@ -26,7 +26,7 @@ def run(ck):
     ck.rule("C03-R1", "G bounded-buffer taint",
             "pointers obtained from StreamCursor::offset(), Token::rawText(), gptr()/curptr() or the (const char*, size_t) parameters of "
             "parseRaw/fromRaw/addFromRaw flow only into length-bounded sinks (strncmp, memcmp, std::string(p, n), ...), never into "
-            "NUL-scanning ones (strtol, strtod, strcmp, strlen, std::string(p), ...)", 12)
+            "NUL-scanning ones (strtol, strtod, strcmp, strlen, std::string(p), ...)", 6)
     ck.rule("C03-R2", "B look-ahead bound",
             "StreamBuf::snext dereferences gptr()+1 only after a bail-out that establishes two available bytes; StreamCursor::next asks "
             "the buffer only when at least one byte is available", 2)
@@ -52,7 +52,7 @@ def run(ck):
             n += 1
             ck.ob("C03-R1", "%s:%s<-%s" % (f.base.replace("Pistache::", ""), sink, (arg or "")[:30]), bounded, e.loc, f,
                   "length-bounded use" if bounded else "%s scans for a terminator the bounded buffer does not have (source: %s)" % (sink, arg))
-    ck.require(n >= 12, "only %d bounded-buffer flows found" % n)
+    ck.require(n >= 6, "only %d bounded-buffer flows found" % n)
 
     # ---------------- R2 ----------------
     for f in prog.find("Pistache::StreamBuf::snext", 1):
